@@ -38,11 +38,14 @@ type DecOracle struct {
 }
 
 type DecSpec struct {
-	Entry      string
-	Cases      []DecCase
-	Lib        func(in []byte) DecResult
-	Ref        func(in []byte) DecOracle
-	RefAll     bool                    // also classify rejected inputs (counts rejected canonical members)
+	Entry  string
+	Cases  []DecCase
+	Lib    func(in []byte) DecResult
+	Ref    func(in []byte) DecOracle
+	RefAll bool // also classify rejected inputs (counts rejected canonical members)
+	// AcceptOnly (optional) runs the decoder alone. When Lib panics it tells a panic of the
+	// decoder (left to C10) from a panic of the re-serialisation of a value the decoder let in.
+	AcceptOnly func(in []byte) bool
 	MustAccept func(class string) bool // nil: class "valid-lib"
 }
 
@@ -74,6 +77,14 @@ func (r *Run) CheckDecoder(s DecSpec) int {
 		copy(in, c.Data)
 		o.panicked, o.pwhat = Try(func() { o.res = s.Lib(in) })
 		r.Eval(1)
+		if o.panicked && s.AcceptOnly != nil {
+			copy(in, c.Data)
+			ok := false
+			if p2, _ := Try(func() { ok = s.AcceptOnly(in) }); !p2 && ok {
+				o.panicked = false
+				o.res = DecResult{Accepted: true, Note: "accepted-value-makes-the-encoder-panic"}
+			}
+		}
 		if o.panicked {
 			return
 		}
